@@ -2,7 +2,9 @@
 //!   helpers : direct differential tests of the pure helpers (`remove_doubles`,
 //!             `find_overlapping_starts`, `calculate_mult`, `contiguous_bits`) through the
 //!             `verif_hooks` wrappers and of the public `BondContainer`.
-//!   rvb     : Ising samplers, one proposed RVB update at a time (see `rvb_mode`).
+//!   rvb     : Ising samplers, one proposed RVB update at a time (see `rvb_mode`); per update also a
+//!             `region` case: the exact proposal model replayed on the recorded draws.
+//!   pipeline: the RVB step embedded in `timestep` vs the explicit decomposition (see `pipeline_mode`).
 //! The oracle column evaluates the property directly on the real code (no model involved).
 
 use qmc::sse::qmc_traits::rvb::verif_hooks::*;
@@ -602,48 +604,6 @@ fn cell_count(before: &Snap, reg: &Reg, nvars: usize) -> usize {
         .sum()
 }
 
-/// rand 0.8 `gen_range(0..n)` replayed on logged words: (value, words consumed)
-fn replay_gen_range(words: &[u64], n: usize) -> Option<(usize, usize)> {
-    let n = n as u64;
-    let zone = (n << n.leading_zeros()).wrapping_sub(1);
-    for (i, v) in words.iter().enumerate() {
-        let m = (*v as u128) * (n as u128);
-        if (m as u64) <= zone {
-            return Some(((m >> 64) as usize, i + 1));
-        }
-    }
-    None
-}
-
-/// does the region contain the starting cell selected by the first draw(s), and is its number of
-/// cells at most the size drawn next (`contiguous_bits + 1`)?
-fn growth_plausible(before: &Snap, reg: &Reg, nvars: usize, log: &[u64], tail_draws: usize) -> Result<(), String> {
-    let cps = const_ps(before, nvars);
-    let flat: Vec<(usize, usize)> = (0..nvars).flat_map(|v| cps[v].iter().map(move |p| (v, *p))).collect();
-    let idle: Vec<usize> = (0..nvars).filter(|v| cps[*v].is_empty()).collect();
-    let (choice, used) = replay_gen_range(log, flat.len() + idle.len()).ok_or("start draw not found")?;
-    let inside = if choice < flat.len() {
-        let (v, p0) = flat[choice];
-        mask_after(before, reg, nvars, p0)[v]
-    } else {
-        mask0_of(reg, nvars)[idle[choice - flat.len()]]
-    };
-    if !inside {
-        return Err(format!("the starting cell (choice {}) is not in the proposed region", choice));
-    }
-    let size = log.get(used).map(|w| w.trailing_ones() as usize + 1).ok_or("size draw missing")?;
-    let cells = cell_count(before, reg, nvars);
-    if cells == 0 || cells > size {
-        return Err(format!("region has {} cells but the drawn cluster size is {}", cells, size));
-    }
-    // every popped cell costs one or two draws (gen_bool unless the ratio is exactly 1, then gen_range)
-    let growth = log.len() as i64 - used as i64 - 1 - tail_draws as i64;
-    if growth < cells as i64 || growth > 2 * cells as i64 {
-        return Err(format!("{} draws spent on growing a region of {} cells", growth, cells));
-    }
-    Ok(())
-}
-
 fn close(a: f64, b: f64) -> bool {
     (a - b).abs() <= 1e-9 * a.abs().max(b.abs()).max(1e-300) || (a.abs() < 1e-15 && b.abs() < 1e-15)
 }
@@ -706,10 +666,9 @@ fn observe(g: &mut G, rng: &Shared, m: &Model, stats: &mut std::collections::BTr
     if let Some(b) = &d.bad {
         fails.push(b.clone());
     }
+    // words drawn after the proposal: the accept draw (unless p >= 1) and one per rotated operator
+    // (which region is proposed from which words is compared exactly by the `region` case below)
     let tail = (t.p_to_flip < 1.0) as usize + if t.accepted { d.k } else { 0 };
-    if let Err(e) = growth_plausible(&before, &reg, m.nvars, &log, tail) {
-        fails.push(e);
-    }
     if !d.outside_same {
         fails.push("an operator outside the traced region changed".into());
     }
@@ -783,6 +742,49 @@ fn observe(g: &mut G, rng: &Shared, m: &Model, stats: &mut std::collections::BTr
             }
         }
     }
+    // --- the acceptance rule measured on the real code: applied with probability min(1, p_to_flip).
+    // p >= 1 is always applied; for 0 < p < 1 the same proposal words followed by an accept word just
+    // below / above p * 2^64 must be accepted / rejected (the flip point / 2^64 is the probability).
+    if t.p_to_flip >= 1.0 && !t.accepted {
+        fails.push(format!("a proposal with p_to_flip = {} >= 1 was not applied", t.p_to_flip));
+    }
+    if t.p_to_flip > 0.0 && t.p_to_flip < 1.0 && log.len() >= tail {
+        let prefix = log.len() - tail;
+        let thr = (t.p_to_flip * (2.0 * (1u64 << 63) as f64)) as u64;
+        let mut probes = vec![(thr.saturating_add(1 << 20), false)];
+        if thr > 0 {
+            probes.push((thr - thr.min(1 << 20), true));
+        }
+        for (w, want) in probes {
+            let mut script = log[..prefix].to_vec();
+            script.push(w);
+            let mut g0 = g_before.clone();
+            rng.script(&script);
+            let _ = take_trace();
+            let r0 = catch(std::panic::AssertUnwindSafe(|| g0.single_rvb_sweep(Some(1))));
+            rng.free();
+            let tr0 = take_trace();
+            match (r0, tr0.get(0)) {
+                (Ok(_), Some(t0)) => {
+                    if reg_of(t0) != reg || t0.p_to_flip.to_bits() != t.p_to_flip.to_bits() {
+                        fails.push("the same proposal words did not reproduce the proposal".into());
+                    } else if t0.accepted != want {
+                        fails.push(format!(
+                            "acceptance rule: p_to_flip = {:e}, accept word {} ({} p*2^64 = {}) but the proposal was {}",
+                            t.p_to_flip,
+                            w,
+                            if want { "below" } else { "at or above" },
+                            thr,
+                            if t0.accepted { "applied" } else { "rejected" }
+                        ));
+                    }
+                    *stats.entry("rvb_accept_threshold_probes".into()).or_insert(0) += 1;
+                }
+                (Err(msg), _) => fails.push(format!("accept-threshold probe panicked: {}", msg)),
+                _ => fails.push("accept-threshold probe produced no trace".into()),
+            }
+        }
+    }
     // --- proposal symmetry and detailed balance on the real pair
     let mut p2tok = "-".to_string();
     if t.accepted {
@@ -851,7 +853,11 @@ fn observe(g: &mut G, rng: &Shared, m: &Model, stats: &mut std::collections::BTr
         let mut gs = g_before.clone();
         rng.free();
         let rs = catch(std::panic::AssertUnwindSafe(|| gs.single_cluster_step()));
-        let scr = snap(&gs);
+        // (a sampler whose step panicked has lost its manager: do not touch it)
+        let scr = if rs.is_ok() { snap(&gs) } else { before.clone() };
+        if let Err(msg) = &rs {
+            rfails.push(format!("single_cluster_step on a clone of the configuration before the update panicked: {}", msg));
+        }
         if rs.is_ok() && const_ps(&scr, m.nvars) == cps_b && scr.slots.len() == before.slots.len() {
             if scr.state != before.state || scr.slots != before.slots {
                 *stats.entry("region_scrambled_differs".into()).or_insert(0) += 1;
@@ -1041,15 +1047,171 @@ fn rvb_mode(a: &Args) {
 }
 
 
+// ---------------------------------------------------------------------------------------------
+// pipeline mode: the RVB step embedded in `timestep` (after `set_run_rvb(true)`) has its own copies of
+// the bond-weight / ising-ratio closures. Two samplers with identical RNG streams: A runs `timestep`,
+// B runs `single_diagonal_step; single_rvb_sweep(None); single_cluster_step`. Oracle (model
+// independent): identical state / operator string / cutoff after every step and identical RVB traces
+// (regions, p_to_flip bit for bit, accept flags). Correspondence (kind `ptf`): for the traced updates of
+// A up to and including the first accepted one (their `before` configuration is the one B has after its
+// diagonal step) the traced p_to_flip equals the model's value for the traced region.
+// ---------------------------------------------------------------------------------------------
+
+fn pipeline_mode(a: &Args) {
+    let mut gen = SplitMix64::new(a.seed ^ 0x91C03);
+    let steps = if a.thorough { 40 } else { 24 };
+    let mut stats: std::collections::BTreeMap<String, u64> = std::collections::BTreeMap::new();
+    for (mi, m) in models(&mut gen, a.thorough).into_iter().enumerate() {
+        let seed = a.seed.wrapping_mul(7777).wrapping_add(mi as u64);
+        let ra = Shared(Rc::new(RefCell::new(RecRng::new(seed))));
+        let rb = Shared(Rc::new(RefCell::new(RecRng::new(seed))));
+        let state: Vec<bool> = (0..m.nvars).map(|_| gen.coin()).collect();
+        let mut ga = G::new_with_rng(m.edges.clone(), m.gamma, m.h, 2 * m.nvars, ra.clone(), Some(state.clone()));
+        let mut gb = G::new_with_rng(m.edges.clone(), m.gamma, m.h, 2 * m.nvars, rb.clone(), Some(state.clone()));
+        ga.set_run_rvb(true);
+        gb.set_run_rvb(true);
+        let hb = gen.chance(1, 3);
+        if hb {
+            ga.set_enable_heatbath(true);
+            gb.set_enable_heatbath(true);
+        }
+        for t in 0..steps {
+            let beta = if t % 2 == 0 { m.beta } else { *gen.pick(&[0.5, 1.0, 2.0]) };
+            let _ = take_trace();
+            let res_a = catch(std::panic::AssertUnwindSafe(|| {
+                ga.timestep(beta);
+            }));
+            let tra = take_trace();
+            let res_b1 = catch(std::panic::AssertUnwindSafe(|| gb.single_diagonal_step(beta)));
+            // (a sampler whose step panicked has lost its manager: stop using it)
+            let mid = if res_b1.is_ok() { Some(snap(&gb)) } else { None };
+            let _ = take_trace();
+            let res_b2 = if res_b1.is_ok() {
+                catch(std::panic::AssertUnwindSafe(|| {
+                    gb.single_rvb_sweep(None);
+                }))
+            } else {
+                Ok(())
+            };
+            let trb = take_trace();
+            let res_b3 = if res_b1.is_ok() && res_b2.is_ok() {
+                catch(std::panic::AssertUnwindSafe(|| {
+                    gb.single_cluster_step();
+                }))
+            } else {
+                Ok(())
+            };
+            let mut fails: Vec<String> = vec![];
+            for (what, r) in [("timestep", &res_a), ("single_diagonal_step", &res_b1), ("single_rvb_sweep", &res_b2), ("single_cluster_step", &res_b3)] {
+                if let Err(msg) = r {
+                    fails.push(format!("{} panicked: {}", what, msg));
+                }
+            }
+            let dead = !fails.is_empty();
+            if !dead {
+                let (sa, sb) = (snap(&ga), snap(&gb));
+                if sa != sb || ga.get_cutoff() != gb.get_cutoff() {
+                    fails.push(format!("step {}: timestep (automatic RVB) differs from single_diagonal_step; single_rvb_sweep(None); single_cluster_step with the same draws", t));
+                }
+                if tra.len() != trb.len() {
+                    fails.push(format!("{} RVB proposals inside timestep, {} in the explicit sweep", tra.len(), trb.len()));
+                }
+                for (i, (x, y)) in tra.iter().zip(trb.iter()).enumerate() {
+                    if reg_of(x) != reg_of(y) {
+                        fails.push(format!("proposal {}: region inside timestep {:?}, in the explicit sweep {:?}", i, reg_of(x), reg_of(y)));
+                        break;
+                    }
+                    if x.p_to_flip.to_bits() != y.p_to_flip.to_bits() || x.accepted != y.accepted {
+                        fails.push(format!(
+                            "proposal {}: p_to_flip inside timestep = {:e} (accepted {}), in the explicit sweep on the same configuration, region and draws = {:e} (accepted {})",
+                            i, x.p_to_flip, x.accepted, y.p_to_flip, y.accepted
+                        ));
+                        break;
+                    }
+                }
+            }
+            *stats.entry("pipeline_rvb_proposals_in_timestep".into()).or_insert(0) += tra.len() as u64;
+            *stats.entry("pipeline_rvb_accepted_in_timestep".into()).or_insert(0) += tra.iter().filter(|t| t.accepted).count() as u64;
+            let failed = !fails.is_empty();
+            emit(
+                tra.iter().any(|t| t.accepted),
+                &format!("pipe {} {} {} {} {}", m.name, mi, t, rat(beta), hb as u8),
+                "same",
+                Some(if fails.is_empty() { Ok(()) } else { Err(fails.join("; ")) }),
+            );
+            // model value of p_to_flip for the proposals whose `before` configuration is known
+            for x in tra.iter() {
+                let mid = match &mid {
+                    Some(m) => m,
+                    None => break,
+                };
+                let reg = reg_of(x);
+                let unequal = m.edges.iter().any(|e| e.1.abs() != m.edges[0].1.abs());
+                emit(
+                    x.p_to_flip != 1.0,
+                    &format!(
+                        "ptf {} {} {} {} {} {} {} {} {}",
+                        m.nvars,
+                        show_edges(&m),
+                        rat(m.gamma),
+                        rat(m.h),
+                        bits(&mid.state),
+                        mid.text,
+                        list(&reg.subvars),
+                        bits(&reg.start),
+                        list(&reg.toggles)
+                    ),
+                    &format!("~{:e}", x.p_to_flip),
+                    None,
+                );
+                *stats.entry(format!("pipeline_ptf_{}_{}", if unequal { "unequalJ" } else { "equalJ" }, if m.h != 0.0 { "h" } else { "h0" })).or_insert(0) += 1;
+                if x.accepted {
+                    break;
+                }
+            }
+            if dead || failed {
+                break;
+            }
+        }
+    }
+    for (k, v) in stats {
+        stat(&k, v);
+    }
+}
+
+/// Side mode (not part of the check): an edge with J = 0 next to an idle variable. `build_cluster`
+/// pushes the neighbour with weight `bond_mag = 0`; the next `pop_index` computes 0/0 = NaN and
+/// `gen_bool(NaN)` panics. The exact proposal model predicts the same (`PANIC`).
+fn j0probe_mode() {
+    let rng = Shared(Rc::new(RefCell::new(RecRng::new(1))));
+    let m = Model { name: "j0", nvars: 2, edges: vec![((0, 1), 0.0)], gamma: 1.0, h: 0.0, beta: 1.0 };
+    let mut g = G::new_with_rng(m.edges.clone(), m.gamma, m.h, 4, rng.clone(), Some(vec![false, true]));
+    let before = snap(&g);
+    // start choice 0 (idle variable 0), size word 1 (one trailing one => cluster size 2), then free draws
+    rng.script(&[0, 1, 12345]);
+    let _ = take_trace();
+    let res = catch(std::panic::AssertUnwindSafe(|| g.single_rvb_sweep(Some(1))));
+    let log = rng.log();
+    rng.free();
+    let (out, oracle) = match res {
+        Ok(_) => ("ok".to_string(), Ok(())),
+        Err(msg) => ("PANIC".to_string(), Err(format!("single_rvb_sweep panicked on a graph with a J = 0 edge: {}", msg))),
+    };
+    emit(true, &format!("region {} {} {} {}", m.nvars, show_edges(&m), before.text, list(&log)), &format!("- - - {} {}", log.len(), out), Some(oracle));
+}
+
 fn main() {
     let a = args();
     quiet_panics();
     match a.mode.as_str() {
         "helpers" => helpers_mode(&a),
         "rvb" => rvb_mode(&a),
+        "pipeline" => pipeline_mode(&a),
+        "j0probe" => j0probe_mode(),
         _ => {
             helpers_mode(&a);
             rvb_mode(&a);
+            pipeline_mode(&a);
         }
     }
 }
